@@ -481,6 +481,10 @@ fn confirm_in_child(spec: &Spec, tier: Tier, path: &str, limit_s: u64) -> (Strin
         match child.try_wait() {
             Ok(Some(status)) => {
                 let code = status.code();
+                if code == Some(meter::EXIT_MEMORY_CAP) {
+                    // resource exhaustion counts like a timeout, not like a crash
+                    return ("memory cap reached".into(), false, true);
+                }
                 let bad = match code {
                     Some(0) => false,
                     Some(2) => false,
@@ -642,7 +646,7 @@ pub fn supervise(spec: &Spec, tier: Tier, seed: u64) -> i32 {
                 continue;
             }
             // crash or hang
-            let hang = status.code() == Some(EXIT_HANG);
+            let hang = status.code() == Some(EXIT_HANG) || status.code() == Some(meter::EXIT_MEMORY_CAP);
             let j = read_journal(&rundir.join(format!("shard-{}.journal", i)));
             let (seq, bytes) = match j {
                 Some(x) => x,
@@ -653,18 +657,31 @@ pub fn supervise(spec: &Spec, tier: Tier, seed: u64) -> i32 {
             };
             let kind = if hang { "hang" } else { "crash" };
             let path = write_replay(spec.id, kind, &bytes);
-            let limit = if hang { (spec.watchdog_s * 4).max(240) } else { (spec.watchdog_s * 2).max(120) };
+            let limit = (spec.watchdog_s * 2).max(120);
+            if hang && violations.iter().any(|(_, m)| m.starts_with("hang:")) {
+                // one hang of this run has been confirmed alone already; further ones are recorded, not re-run
+                inconclusive.push(format!("shard {} also ran into the watchdog / memory cap (stream {}); not re-run alone, a hang of this run is confirmed already", i, path));
+                continue;
+            }
             let (desc, bad, timed_out) = confirm_in_child(spec, tier, &path, limit);
+            let mut established = false;
             if timed_out {
                 if spec.hang_is_violation {
-                    violations.push((path.clone(), format!("hang: case did not finish within {} s when re-run alone", limit)));
+                    violations.push((path.clone(), format!("hang: case did not finish within {} s (or within the memory cap) when re-run alone: {}", limit, desc)));
+                    established = true;
                 } else {
-                    inconclusive.push(format!("case {} did not finish within {} s alone (hang is not a violation of {})", path, limit, spec.id));
+                    inconclusive.push(format!("case {} did not finish within {} s / the memory cap alone (not a violation of {}): {}", path, limit, spec.id, desc));
                 }
             } else if bad {
                 violations.push((path.clone(), format!("worker {} ({:?}); re-run alone: {}", kind, status, desc)));
+                established = true;
             } else {
                 inconclusive.push(format!("worker {} ({:?}) on {} did not reproduce alone ({})", kind, status, path, desc));
+            }
+            // A shard that has produced a confirmed crash or hang is not resumed: each further
+            // hit of the same defect would cost two watchdog periods.
+            if established {
+                continue;
             }
             if *att < 20 {
                 pending.push((i, seq, *att + 1));
